@@ -20,16 +20,25 @@ W.preload([A, B, A3])
 PKG = {'A': A, 'B': B, 'A3': A3}
 # VCs here are nonlinear ((sum n_k/N * h_k) * N = sum n_k * h_k): try a fresh one-shot solver first (engine opt-in, same verdicts)
 os.environ.setdefault('VERIF_PROVE_FRESH_MS', '5000')
+os.environ.setdefault('VERIF_PROVE_FRESH_ORDER', 'default,nlsat')   # the terms carry uninterpreted functions: nlsat second
+if 'VERIF_BRANCH_TIMEOUT_MS' not in os.environ:
+    # the incremental path solver either answers a branch-feasibility query at once or not at all on these terms;
+    # hand over to the one-shot solver early (this process only)
+    from engine.sx import sym as _sym
+    _sym.BRANCH_TIMEOUT_MS = 400
 
 
 class SolveFailed(RuntimeError):
     """What the stubbed temperature solver raises when the configuration says it fails."""
 
 
-def _stub(w, pkg, fail=None):
+def _stub(w, pkg, fail=None, stay=False):
     """
     Stub package (A-models + A-root).  `fail` = {'HP': n, 'SP': n, 'xHP': n, 'xSP': n}: the first n calls of
     that solver raise SolveFailed (the target is not reachable in the present phase).
+    stay=False: a successful solve returns *any* T* > 0 with property(T*) == target (fresh leaf; this includes the
+    start value whenever that is a root, so it covers A-root-stay without a fork on "is the guess a root?").
+    stay=True: the engine's stub, which returns the start value itself when it already satisfies the equation.
     Returns (thermo, log) where log lists the solver calls made [(kind, outcome)].
     """
     th = W.stub_thermo(w, PKG[pkg])
@@ -37,6 +46,12 @@ def _stub(w, pkg, fail=None):
     base = type(mix)
     left = dict(fail or {})
     log = []
+
+    def _root(self, kind, value_at, target, T_guess):
+        T = w.real(f'root{len(self.roots)}.{kind}', lo=0., lo_strict=True)
+        w.assume(w.eq(value_at(T), target))
+        self.roots.append((kind, T))
+        return T
 
     def wrap(kind, name):
         real = getattr(base, name)
@@ -53,7 +68,7 @@ def _stub(w, pkg, fail=None):
         return solve
 
     Failing = type('FailingStubMixture', (base,), {
-        '__slots__': (),
+        '__slots__': (), **({} if stay else {'_root': _root}),
         'solve_T_at_HP': wrap('HP', 'solve_T_at_HP'), 'solve_T_at_SP': wrap('SP', 'solve_T_at_SP'),
         'xsolve_T_at_HP': wrap('xHP', 'xsolve_T_at_HP'), 'xsolve_T_at_SP': wrap('xSP', 'xsolve_T_at_SP')})
     mix.__class__ = Failing
@@ -88,6 +103,24 @@ def _present(pkg, phases, mode):
 KINDS = {'l': 'l', 'g': 'g', 's': 's', 'gl': ('g', 'l'), 'lL': ('l', 'L'), 'gls': ('g', 'l', 's')}
 
 
+def _read_H(w, s, tag):
+    """
+    Read s.H through the public getter and state the model equation of DESIGN 4/C02,
+        H(s) = sum over phases and chemicals of  n_k * h_k(phase, T, P)
+    (h_k the uninterpreted pure-component models), as a lemma: once discharged it is what the balance clauses build on
+    (the getter itself computes  N * sum_k (n_k / N) * h_k  from the normalised composition and a cache).
+    """
+    got = s.H
+    IDs = s.chemicals.IDs
+    T, P = s.T, s.P
+    direct = 0.
+    for phase, row in W.rows_of(s):
+        for i, n in row.dct.items():
+            direct = direct + n * w.fn(f'H.{IDs[i]}.{phase}')(T, P)
+    w.lemma(f'{tag}: H getter = sum_k n_k h_k(phase, T, P)', w.eq(got, direct))
+    return got
+
+
 def _flows_equal(w, a, b):
     keys = set(a) | set(b)
     return w.And(*[w.eq(a.get(k, 0.), b.get(k, 0.)) for k in sorted(keys)])
@@ -105,7 +138,7 @@ def set_configs(tier):
     for prop in ['H', 'h', 'Hnet', 'S']:
         for kind in ['l', 'g', 's', 'gl', 'gls']:
             multi = len(kind) > 1
-            if kind == 'gls' and quick and prop != 'H':
+            if kind == 'gls' and quick:
                 continue
             for fail in [0, 1]:
                 if prop == 'S':
@@ -154,7 +187,13 @@ def set_value(w, cfg):
                  w.And(w.eq(s.T, T0), w.eq(s.P, P0), W.same_snapshot(w, pre_rows, W.snapshot(s))))
         w.canary('canary: failed assignment moved T', w.ne(s.T, T0))
         return
-    back = getattr(s, prop)
+    if prop == 'H':
+        back = _read_H(w, s, 'after')
+    elif prop == 'Hnet':
+        back = _read_H(w, s, 'after') + s.Hf
+        w.ensure('Hnet getter = H + Hf', w.eq(s.Hnet, back))
+    else:
+        back = getattr(s, prop)
     w.ensure(f'reading {prop} back returns the assigned value', w.eq(back, value))
     w.ensure('flows unchanged', _flows_equal(w, pre, W.total_by_CAS(s)))
     w.ensure('P unchanged', w.eq(s.P, P0))
@@ -189,7 +228,7 @@ def set_same_value(w, cfg):
     W.reset_caches()
     prop, kind = cfg['prop'], cfg['kind']
     phases = KINDS[kind]
-    th, log = _stub(w, cfg['pkg'])
+    th, log = _stub(w, cfg['pkg'], stay=True)
     s, leaves = W.stream_on(w, 's', th, phases, present=_present(cfg['pkg'], phases, cfg['mode']))
     T0, P0 = s.T, s.P
     pre = W.snapshot(s)
@@ -296,8 +335,8 @@ def mix_from(w, cfg):
         return      # outside the quantifier (non-empty inlet sets)
     # pre-state: enthalpy flows of the inlets and pressures, read through the public getters before the call
     H_in = 0.
-    for s in inlets:
-        H_in = H_in + s.H
+    for n, s in enumerate(inlets):
+        H_in = H_in + _read_H(w, s, f'inlet {n} before')
     P_in = [s.P for s in nonempty]
     Q_kw = Q_heat = 0.
     others = list(inlets)
@@ -313,7 +352,7 @@ def mix_from(w, cfg):
     if cfg['opt'] == 'conserve_phases':
         kw['conserve_phases'] = True
     recv.mix_from(others, energy_balance=True, **kw)
-    H_out = recv.H
+    H_out = _read_H(w, recv, 'receiver after')
     w.ensure("H(receiver') = sum of inlet H + Q", w.eq(H_out, H_in + Q_kw + Q_heat))
     w.ensure("P(receiver') = min P over the non-empty inlets", _min_of(w, recv.P, P_in))
     for n, s, snap, T, P in frames:
@@ -337,7 +376,9 @@ def sep_configs(tier):
         for eb in [True, False]:
             if not eb and quick and (r, o) not in (('l', ('l', 'B')), ('gl', ('l', 'A'))):
                 continue
-            for sm, om in ([('pos+maybe', 'pos')] if quick or not eb else [('pos+maybe', 'pos'), ('pos+pos', 'pos+maybe')]):
+            multi = len(r) > 1
+            first = ('first-row-pos' if multi else 'pos+maybe', 'pos')
+            for sm, om in ([first] if quick or not eb else [first, ('pos+maybe', 'pos')] + ([] if multi else [('pos+pos', 'pos+maybe')])):
                 out.append({'name': f'self={r}:{sm};other={o[0]}{o[1]}:{om};eb={eb}', 'self': r, 'other': list(o), 'eb': eb,
                             'smode': sm, 'omode': om})
     return out
@@ -371,12 +412,13 @@ def separate_out(w, cfg):
     else:
         for cas in ot:
             w.assume(w.lt(ot[cas], st.get(cas, 0.)) if not isinstance(ot[cas], float) or ot[cas] else True)
-    H_s, H_o = s.H, o.H
+    H_s, H_o = _read_H(w, s, 'self before'), _read_H(w, o, 'other before')
     T0, P0 = s.T, s.P
     pre_o = (W.snapshot(o), o.T, o.P)
     s.separate_out(o, energy_balance=cfg['eb'])
+    H_after = _read_H(w, s, 'self after')
     if cfg['eb']:
-        w.ensure("H(self') = H(self) - H(other)", w.eq(s.H, H_s - H_o))
+        w.ensure("H(self') = H(self) - H(other)", w.eq(H_after, H_s - H_o))
     else:
         w.ensure('without energy balance T is left alone', w.eq(s.T, T0))
     w.ensure('P unchanged', w.eq(s.P, P0))
@@ -385,5 +427,5 @@ def separate_out(w, cfg):
              w.And(*[w.eq(got[cas], st[cas] - ot.get(cas, 0.)) for cas in st]))
     w.ensure('separated stream unchanged (flows, phases, T, P)',
              w.And(W.same_snapshot(w, pre_o[0], W.snapshot(o)), w.eq(o.T, pre_o[1]), w.eq(o.P, pre_o[2])))
-    w.canary("canary: H(self') = H(self) + H(other)", w.eq(s.H, H_s + H_o + 1))
-    w.note(H_s=H_s, H_o=H_o, H_after=s.H, T=s.T)
+    w.canary("canary: H(self') = H(self) + H(other)", w.eq(H_after, H_s + H_o + 1))
+    w.note(H_s=H_s, H_o=H_o, H_after=H_after, T=s.T)
